@@ -18,7 +18,7 @@ function panicName(e) {
   const m = String(e && e.message);
   if (/send on closed channel/.test(m)) return 'panic:send-closed';
   if (/close of closed channel/.test(m)) return 'panic:close-closed';
-  if (e instanceof Object && /Cannot read properties of null \(reading 'zero'\)/.test(m)) return 'panic:nil-elem';
+  if (/Cannot read properties of null \(reading 'zero'\)/.test(m)) return 'panic:nil-elem';
   return null;
 }
 
@@ -47,6 +47,8 @@ module.exports = function (repo, loadPrelude) {
 
   function dump(ctx) {
     const s = getState();
+    // goroutines created but not yet run are recognised in $scheduled in creation order
+    for (const g of s.sched) if (g.gid === undefined && H.untagged.length) { g.gid = H.untagged.shift(); H.gobj[g.gid] = g; }
     const cur = s.cur === s.none ? '-' : String(s.cur.gid);
     const chs = H.chans.map(c => c.$capacity + '/' + join('.', c.$buffer) + '/' + c.$sendQueue.length + '/' + c.$recvQueue.length + '/' + bit(c.$closed));
     const gs = H.gobj.map(g => g === undefined ? '?' : (g.asleep ? 'a' : 'r') + (g.exit ? 'x' : ''));
@@ -122,12 +124,8 @@ module.exports = function (repo, loadPrelude) {
     throw new Error('bad blocking op ' + op[0]);
   }
   function spawn() {
-    const gid = H.gobj.length; H.gobj.push(undefined);
-    const before = getState();
+    const gid = H.gobj.length; H.gobj.push(undefined); H.untagged.push(gid);
     R.go(body, [gid]);
-    if (before.cur !== before.none) { // scheduled, not yet run: it is the last element of $scheduled
-      const s = getState(); const g = s.sched[s.sched.length - 1]; g.gid = gid; H.gobj[gid] = g;
-    }
   }
   function simple(op) { // non-blocking operations of a goroutine
     switch (op[0]) {
@@ -150,7 +148,7 @@ module.exports = function (repo, loadPrelude) {
   const body = function body$1(gid) {
     var { gid, op, $s, $r, $c } = $restore(this, { gid });
     /* */ $s = $s || 0; s: while (true) { switch ($s) { case 0:
-      { const s = getState(); s.cur.gid = gid; H.gobj[gid] = s.cur; }
+      { const s = getState(); s.cur.gid = gid; H.gobj[gid] = s.cur; H.untagged = H.untagged.filter(x => x !== gid); }
       obs('run:' + gid + ':none');
     case 1:
       op = pull('gor');
@@ -170,7 +168,7 @@ module.exports = function (repo, loadPrelude) {
     reset();
     H = {
       events, pos: 0, answers: [], pendingObs: null, clock: 1000, timers: [], nextTimer: 0, expectStart: false,
-      chans: [$chanNil], gobj: [], dead: 0, stray: [], pick: 0, afterChan: -1,
+      chans: [$chanNil], gobj: [], untagged: [], dead: 0, stray: [], pick: 0, afterChan: -1,
       now() {
         if (this.expectStart) { this.expectStart = false; return this.clock; }
         if (getState().sched.length === 0) return this.clock; // loop is about to end
